@@ -114,7 +114,7 @@ def norm_expected(events, drop_bom):
 
 
 def norm_uri(u, root):
-    """observed base URI -> model URI below /R/ (None when it does not lie in the case directory)"""
+    """observed base URI -> model URI: the case directory is mapped onto xigen.VROOT (paths that climb above it stay comparable)"""
     if u is None:
         return None
     if u.startswith('file://'):
@@ -122,9 +122,13 @@ def norm_uri(u, root):
     elif u.startswith('file:'):
         u = u[5:]
     u = xigen.normpath(u)
-    if root and u.startswith(root + '/'):
+    if not root or not u.startswith('/'):
+        return u
+    if u.startswith(root + '/'):
         return xigen.VROOT + u[len(root) + 1:]
-    return u
+    import posixpath
+    rel = posixpath.relpath(u, root) + ('/' if u.endswith('/') else '')
+    return xigen.normpath(xigen.VROOT + rel)
 
 
 ERROR_CAUSES = [  # feature of the graph -> construct class named in the key of an "error on valid input" violation
